@@ -224,9 +224,9 @@ theorem addAllNodes_closed (md : List Feat) (spots : List Spot) (g : Graph) (seg
         rcases huni with h | h
         · have := h s (by simp); rw [hr] at this; cases this
         · exact fun s' h' => h s' (by simp [h'])
-      have hconv : convertRoi r a = .ok (aset a "ROI_coords" (match r.pts with
-          | some p => .roi p
-          | none => .none)) := by
+      have hconv : convertRoi r a = .ok (match r.pts with
+          | some p => aset a "ROI_coords" (.roi p)
+          | none => a) := by
         unfold convertRoi
         cases hp : r.pts with
         | none => rfl
